@@ -5,24 +5,1358 @@ C04 sequential part, C05, C08).
 -/
 namespace Ebu.Bus
 
+namespace BF
+
+/-! ### field lemmas for `emit` / `emitIf` / `persist` -/
+
+@[local simp] theorem emit_nextRid (c : Core) (e : Ev) : (c.emit e).nextRid = c.nextRid := rfl
+@[local simp] theorem emitIf_nextRid (b : Bool) (c : Core) (e : Ev) : (emitIf b c e).nextRid = c.nextRid := by cases b <;> rfl
+@[local simp] theorem emit_executed (c : Core) (e : Ev) : (c.emit e).executed = c.executed := rfl
+@[local simp] theorem emitIf_executed (b : Bool) (c : Core) (e : Ev) : (emitIf b c e).executed = c.executed := by cases b <;> rfl
+@[local simp] theorem emit_cancelled (c : Core) (e : Ev) : (c.emit e).cancelled = c.cancelled := rfl
+@[local simp] theorem emitIf_cancelled (b : Bool) (c : Core) (e : Ev) : (emitIf b c e).cancelled = c.cancelled := by cases b <;> rfl
+@[local simp] theorem emit_nextCtx (c : Core) (e : Ev) : (c.emit e).nextCtx = c.nextCtx := rfl
+@[local simp] theorem emitIf_nextCtx (b : Bool) (c : Core) (e : Ev) : (emitIf b c e).nextCtx = c.nextCtx := by cases b <;> rfl
+@[local simp] theorem emit_log (c : Core) (e : Ev) : (c.emit e).log = c.log := rfl
+@[local simp] theorem emitIf_log (b : Bool) (c : Core) (e : Ev) : (emitIf b c e).log = c.log := by cases b <;> rfl
+@[local simp] theorem emit_lastOffset (c : Core) (e : Ev) : (c.emit e).lastOffset = c.lastOffset := rfl
+@[local simp] theorem emitIf_lastOffset (b : Bool) (c : Core) (e : Ev) : (emitIf b c e).lastOffset = c.lastOffset := by cases b <;> rfl
+@[local simp] theorem emit_appendFaults (c : Core) (e : Ev) : (c.emit e).appendFaults = c.appendFaults := rfl
+@[local simp] theorem emitIf_appendFaults (b : Bool) (c : Core) (e : Ev) : (emitIf b c e).appendFaults = c.appendFaults := by cases b <;> rfl
+@[local simp] theorem emit_pending (c : Core) (e : Ev) : (c.emit e).pending = c.pending := rfl
+@[local simp] theorem emitIf_pending (b : Bool) (c : Core) (e : Ev) : (emitIf b c e).pending = c.pending := by cases b <;> rfl
+@[local simp] theorem emit_panicking (c : Core) (e : Ev) : (c.emit e).panicking = c.panicking := rfl
+@[local simp] theorem emitIf_panicking (b : Bool) (c : Core) (e : Ev) : (emitIf b c e).panicking = c.panicking := by cases b <;> rfl
+@[local simp] theorem emit_nextObs (c : Core) (e : Ev) : (c.emit e).nextObs = c.nextObs := rfl
+@[local simp] theorem emitIf_nextObs (b : Bool) (c : Core) (e : Ev) : (emitIf b c e).nextObs = c.nextObs := by cases b <;> rfl
+@[local simp] theorem emit_calls (c : Core) (e : Ev) : (c.emit e).calls = c.calls := rfl
+@[local simp] theorem emitIf_calls (b : Bool) (c : Core) (e : Ev) : (emitIf b c e).calls = c.calls := by cases b <;> rfl
+@[local simp] theorem emit_outOfFuel (c : Core) (e : Ev) : (c.emit e).outOfFuel = c.outOfFuel := rfl
+@[local simp] theorem emitIf_outOfFuel (b : Bool) (c : Core) (e : Ev) : (emitIf b c e).outOfFuel = c.outOfFuel := by cases b <;> rfl
+
+@[local simp] theorem emit_rtrace (c : Core) (e : Ev) : (c.emit e).rtrace = e :: c.rtrace := rfl
+@[local simp] theorem emit_live (c : Core) (e : Ev) (k : Nat) : (c.emit e).live k = c.live k := rfl
+@[local simp] theorem emitIf_live (b : Bool) (c : Core) (e : Ev) (k : Nat) : (emitIf b c e).live k = c.live k := by
+  cases b <;> rfl
+
+@[local simp] theorem trace_mk (a1 : Nat) (a2 a3 : List Nat) (a4 : Nat) (a5 : List (Nat × Nat)) (a6 : Nat)
+    (a7 : List Bool) (a8 : List Pending) (rt : List Ev) (a10 : Option Nat) (a11 a12 : Nat) (a13 : Bool) :
+    (Core.mk a1 a2 a3 a4 a5 a6 a7 a8 rt a10 a11 a12 a13).trace = rt.reverse := rfl
+
+@[local simp] theorem rtrace_reverse (c : Core) : c.rtrace.reverse = c.trace := rfl
+
+@[local simp] theorem emitIf_trace (b : Bool) (c : Core) (e : Ev) :
+    (emitIf b c e).trace = c.trace ++ (if b then [e] else []) := by
+  cases b <;> simp [emitIf]
+
+/-! ### event classes -/
+
+def isExit : Ev → Bool
+  | .exit .. => true
+  | _ => false
+
+/-- neither enter, exit, hook nor panich -/
+def plain : Ev → Bool
+  | .enter .. => false
+  | .exit .. => false
+  | .hook .. => false
+  | .panich .. => false
+  | _ => true
+
+/-- what a call at depth `d` may append: tagged `≥ d`; enter/exit tagged `≥ d+1` -/
+def TagOK (d : Nat) (e : Ev) : Prop :=
+  d ≤ e.depth ∧ ((isEnter e = true ∨ isExit e = true) → d + 1 ≤ e.depth)
+
+theorem TagOK.mono {d d' : Nat} {e : Ev} (h : d ≤ d') (ht : TagOK d' e) : TagOK d e :=
+  ⟨by have := ht.1; omega, fun hh => by have := ht.2 hh; omega⟩
+
+theorem TagOK.of_plain {d : Nat} {e : Ev} (hd : d ≤ e.depth) (hp : plain e = true) : TagOK d e := by
+  refine ⟨hd, ?_⟩
+  cases e <;> simp_all [plain, isEnter, isExit]
+
+/-- the events `persist` appends -/
+def persistEvs (cfg : Config) (d ty v : Nat) (bad : Bool) (obsParent : Nat) (c : Core) : List Ev :=
+  match cfg.store with
+  | none => []
+  | some sid =>
+    if bad then (if cfg.perrH then [.perr d ty v true] else [])
+    else
+      let fails := c.appendFaults.headD false
+      (if cfg.obs then [Ev.obs d .rs c.nextObs obsParent ty false] else []) ++
+      [if fails then Ev.append d sid ty v false 0 else Ev.append d sid ty v true (c.log.length + 1)] ++
+      (if cfg.obs then [Ev.obs d .rc c.nextObs 0 ty fails] else []) ++
+      (if fails && cfg.perrH then [Ev.perr d ty v false] else [])
+
+theorem persist_trace (cfg : Config) (d ty v : Nat) (bad : Bool) (obsParent : Nat) (c : Core) :
+    (persist cfg d ty v bad obsParent c).trace = c.trace ++ persistEvs cfg d ty v bad obsParent c := by
+  cases hs : cfg.store <;> cases bad <;> cases ho : cfg.obs <;> cases hp : cfg.perrH <;>
+    cases hf : c.appendFaults.head?.getD false <;> simp [persist, persistEvs, hs, ho, hp, hf]
+
+theorem persistEvs_plain (cfg : Config) (d ty v : Nat) (bad : Bool) (obsParent : Nat) (c : Core) :
+    ∀ e ∈ persistEvs cfg d ty v bad obsParent c, e.depth = d ∧ plain e = true := by
+  cases hs : cfg.store <;> cases bad <;> cases ho : cfg.obs <;> cases hp : cfg.perrH <;>
+    cases hf : c.appendFaults.head?.getD false <;> simp [persistEvs, hs, ho, hp, hf, Ev.depth, plain]
+
+theorem persist_fields (cfg : Config) (d ty v : Nat) (bad : Bool) (obsParent : Nat) (c : Core) :
+    let c' := persist cfg d ty v bad obsParent c
+    c'.nextRid = c.nextRid ∧ c'.executed = c.executed ∧ c'.cancelled = c.cancelled ∧
+    c'.nextCtx = c.nextCtx ∧ c'.pending = c.pending ∧ c'.panicking = c.panicking ∧ c'.calls = c.calls := by
+  cases hs : cfg.store <;> cases bad <;> cases ho : cfg.obs <;> cases hp : cfg.perrH <;>
+    cases hf : c.appendFaults.head?.getD false <;> simp [persist, hs, ho, hp, hf]
+
+@[local simp] theorem persist_nextRid (cfg : Config) (d ty v : Nat) (bad : Bool) (o : Nat) (c : Core) :
+    (persist cfg d ty v bad o c).nextRid = c.nextRid := (persist_fields cfg d ty v bad o c).1
+@[local simp] theorem persist_executed (cfg : Config) (d ty v : Nat) (bad : Bool) (o : Nat) (c : Core) :
+    (persist cfg d ty v bad o c).executed = c.executed := (persist_fields cfg d ty v bad o c).2.1
+@[local simp] theorem persist_cancelled (cfg : Config) (d ty v : Nat) (bad : Bool) (o : Nat) (c : Core) :
+    (persist cfg d ty v bad o c).cancelled = c.cancelled := (persist_fields cfg d ty v bad o c).2.2.1
+@[local simp] theorem persist_nextCtx (cfg : Config) (d ty v : Nat) (bad : Bool) (o : Nat) (c : Core) :
+    (persist cfg d ty v bad o c).nextCtx = c.nextCtx := (persist_fields cfg d ty v bad o c).2.2.2.1
+@[local simp] theorem persist_pending (cfg : Config) (d ty v : Nat) (bad : Bool) (o : Nat) (c : Core) :
+    (persist cfg d ty v bad o c).pending = c.pending := (persist_fields cfg d ty v bad o c).2.2.2.2.1
+@[local simp] theorem persist_panicking (cfg : Config) (d ty v : Nat) (bad : Bool) (o : Nat) (c : Core) :
+    (persist cfg d ty v bad o c).panicking = c.panicking := (persist_fields cfg d ty v bad o c).2.2.2.2.2.1
+@[local simp] theorem persist_calls (cfg : Config) (d ty v : Nat) (bad : Bool) (o : Nat) (c : Core) :
+    (persist cfg d ty v bad o c).calls = c.calls := (persist_fields cfg d ty v bad o c).2.2.2.2.2.2
+@[local simp] theorem persist_live (cfg : Config) (d ty v : Nat) (bad : Bool) (o : Nat) (c : Core) (k : Nat) :
+    (persist cfg d ty v bad o c).live k = c.live k := by simp [Core.live]
+
+/-! ### the frame relation -/
+
+section rel
+variable {R : Type}
+
+/-- registration identities are unique across event types -/
+def WFG (I : RegImpl R) (s : St R) : Prop :=
+  ∀ t t', ∀ r ∈ I.get s.reg t, ∀ r' ∈ I.get s.reg t', r.rid = r'.rid → t = t'
+
+/-- every registered once-handler that has fired is one of `C` (claimed by a publish in progress) -/
+def Q (I : RegImpl R) (s : St R) (C : List Nat) : Prop :=
+  (∀ t, ∀ r ∈ I.get s.reg t, r.once = true → r.rid ∈ s.c.executed → r.rid ∈ C) ∧
+  ∀ x ∈ s.c.executed, x < s.c.nextRid
+
+def Inv0 (c : Core) : Prop := 0 ∉ c.cancelled ∧ 0 < c.nextCtx
+
+structure Fr0 (I : RegImpl R) (b : Bool) (d : Nat) (s s' : St R) : Prop where
+  tr : ∃ l, s'.c.trace = s.c.trace ++ l ∧ ∀ e ∈ l, TagOK d e
+  pd : b = true → ∃ p, s'.c.pending = s.c.pending ++ p ∧ ∀ q ∈ p, d ≤ q.depth
+  ex : ∀ x ∈ s.c.executed, x ∈ s'.c.executed
+  inv0 : Inv0 s.c → Inv0 s'.c
+  nr : s.c.nextRid ≤ s'.c.nextRid
+  stab : I.Lawful → ∀ t, ∀ r ∈ I.get s'.reg t, r ∈ I.get s.reg t ∨ s.c.nextRid ≤ r.rid
+  wf : I.Lawful → WF I s → WF I s'
+  wfg : I.Lawful → WF I s → WFG I s → WFG I s'
+
+structure Fr (I : RegImpl R) (b : Bool) (d : Nat) (s s' : St R) : Prop extends Fr0 I b d s s' where
+  q : I.Lawful → WF I s → WFG I s → ∀ C, Q I s C → Q I s' C
+
+variable {I : RegImpl R} {b : Bool} {d : Nat} {s s' s'' : St R}
+
+theorem Fr0.refl : Fr0 I b d s s where
+  tr := ⟨[], by simp, by simp⟩
+  pd := fun _ => ⟨[], by simp, by simp⟩
+  ex := fun _ h => h
+  inv0 := fun h => h
+  nr := Nat.le_refl _
+  stab := fun _ _ _ h => Or.inl h
+  wf := fun _ h => h
+  wfg := fun _ _ h => h
+
+theorem Fr.refl : Fr I b d s s := ⟨Fr0.refl, fun _ _ _ _ h => h⟩
+
+theorem Fr0.trans (h1 : Fr0 I b d s s') (h2 : Fr0 I b d s' s'') : Fr0 I b d s s'' where
+  tr := by
+    obtain ⟨l1, e1, t1⟩ := h1.tr
+    obtain ⟨l2, e2, t2⟩ := h2.tr
+    refine ⟨l1 ++ l2, by rw [e2, e1, List.append_assoc], ?_⟩
+    intro e he
+    rcases List.mem_append.1 he with h | h
+    · exact t1 e h
+    · exact t2 e h
+  pd := fun hb => by
+    obtain ⟨l1, e1, t1⟩ := h1.pd hb
+    obtain ⟨l2, e2, t2⟩ := h2.pd hb
+    refine ⟨l1 ++ l2, by rw [e2, e1, List.append_assoc], ?_⟩
+    intro e he
+    rcases List.mem_append.1 he with h | h
+    · exact t1 e h
+    · exact t2 e h
+  ex := fun x h => h2.ex x (h1.ex x h)
+  inv0 := fun h => h2.inv0 (h1.inv0 h)
+  nr := Nat.le_trans h1.nr h2.nr
+  stab := fun hI t r hr => by
+    rcases h2.stab hI t r hr with h | h
+    · exact h1.stab hI t r h
+    · exact Or.inr (Nat.le_trans h1.nr h)
+  wf := fun hI h => h2.wf hI (h1.wf hI h)
+  wfg := fun hI h hg => h2.wfg hI (h1.wf hI h) (h1.wfg hI h hg)
+
+theorem Fr.trans (h1 : Fr I b d s s') (h2 : Fr I b d s' s'') : Fr I b d s s'' :=
+  ⟨h1.toFr0.trans h2.toFr0, fun hI h hg C hq =>
+    h2.q hI (h1.wf hI h) (h1.wfg hI h hg) C (h1.q hI h hg C hq)⟩
+
+theorem Fr0.mono {b' : Bool} {d' : Nat} (hd : d ≤ d') (hb : b = true → b' = true) (h : Fr0 I b' d' s s') :
+    Fr0 I b d s s' where
+  tr := by
+    obtain ⟨l, e, t⟩ := h.tr
+    exact ⟨l, e, fun x hx => (t x hx).mono hd⟩
+  pd := fun hb' => by
+    obtain ⟨l, e, t⟩ := h.pd (hb hb')
+    exact ⟨l, e, fun x hx => Nat.le_trans hd (t x hx)⟩
+  ex := h.ex
+  inv0 := h.inv0
+  nr := h.nr
+  stab := h.stab
+  wf := h.wf
+  wfg := h.wfg
+
+theorem Fr.mono {b' : Bool} {d' : Nat} (hd : d ≤ d') (hb : b = true → b' = true) (h : Fr I b' d' s s') :
+    Fr I b d s s' := ⟨h.toFr0.mono hd hb, h.q⟩
+
+theorem WF_of_sub (hsub : ∀ t, (I.get s'.reg t).Sublist (I.get s.reg t)) (hnr : s.c.nextRid ≤ s'.c.nextRid)
+    (h : WF I s) : WF I s' := by
+  intro t
+  refine ⟨((hsub t).map _).nodup (h t).1, fun r hr => ?_⟩
+  have := (h t).2 r ((hsub t).mem hr)
+  exact ⟨by omega, this.2⟩
+
+theorem WFG_of_sub (hsub : ∀ t, (I.get s'.reg t).Sublist (I.get s.reg t)) (h : WFG I s) : WFG I s' :=
+  fun t t' r hr r' hr' he => h t t' r ((hsub t).mem hr) r' ((hsub t').mem hr') he
+
+/-- a change that only removes registrations -/
+theorem Fr.of_sub (hsub : I.Lawful → ∀ t, (I.get s'.reg t).Sublist (I.get s.reg t))
+    (hnr : s'.c.nextRid = s.c.nextRid) (hex : s'.c.executed = s.c.executed) (hinv : Inv0 s.c → Inv0 s'.c)
+    (hpd : b = true → ∃ p, s'.c.pending = s.c.pending ++ p ∧ ∀ q ∈ p, d ≤ q.depth)
+    (htr : ∃ l, s'.c.trace = s.c.trace ++ l ∧ ∀ e ∈ l, TagOK d e) : Fr I b d s s' where
+  tr := htr
+  pd := hpd
+  ex := by simp [hex]
+  inv0 := hinv
+  nr := by omega
+  stab := fun hI t r hr => Or.inl ((hsub hI t).mem hr)
+  wf := fun hI h => WF_of_sub (hsub hI) (by omega) h
+  wfg := fun hI _ h => WFG_of_sub (hsub hI) h
+  q := fun hI _ _ C h => ⟨fun t r hr ho he => h.1 t r ((hsub hI t).mem hr) ho (hex ▸ he),
+    fun x hx => by have := h.2 x (hex ▸ hx); omega⟩
+
+/-- a change that leaves the registry and `nextRid` alone -/
+theorem Fr0.of_core (hreg : s'.reg = s.reg) (hnr : s'.c.nextRid = s.c.nextRid)
+    (hex : ∀ x ∈ s.c.executed, x ∈ s'.c.executed) (hinv : Inv0 s.c → Inv0 s'.c)
+    (hpd : ∃ p, s'.c.pending = s.c.pending ++ p ∧ ∀ q ∈ p, d ≤ q.depth)
+    (htr : ∃ l, s'.c.trace = s.c.trace ++ l ∧ ∀ e ∈ l, TagOK d e) : Fr0 I b d s s' where
+  tr := htr
+  pd := fun _ => hpd
+  ex := hex
+  inv0 := hinv
+  nr := by omega
+  stab := fun _ t r hr => Or.inl (hreg ▸ hr)
+  wf := fun _ h => by simpa [WF, hreg, hnr] using h
+  wfg := fun _ _ h => by simpa [WFG, hreg] using h
+
+theorem Fr.quiet' (hreg : s'.reg = s.reg) (hnr : s'.c.nextRid = s.c.nextRid)
+    (hex : s'.c.executed = s.c.executed) (hinv : Inv0 s.c → Inv0 s'.c) (hpd : s'.c.pending = s.c.pending)
+    (htr : ∃ l, s'.c.trace = s.c.trace ++ l ∧ ∀ e ∈ l, TagOK d e) : Fr I b d s s' :=
+  Fr.of_sub (fun _ t => by rw [hreg]; exact List.Sublist.refl _) hnr hex hinv
+    (fun _ => ⟨[], by simp [hpd], by simp⟩) htr
+
+/-- a change that only touches the trace and fields nothing here depends on -/
+theorem Fr.quiet (hreg : s'.reg = s.reg) (hnr : s'.c.nextRid = s.c.nextRid)
+    (hex : s'.c.executed = s.c.executed) (hcan : s'.c.cancelled = s.c.cancelled)
+    (hctx : s'.c.nextCtx = s.c.nextCtx) (hpd : s'.c.pending = s.c.pending)
+    (htr : ∃ l, s'.c.trace = s.c.trace ++ l ∧ ∀ e ∈ l, TagOK d e) : Fr I b d s s' :=
+  Fr.quiet' hreg hnr hex (by simp [Inv0, hcan, hctx]) hpd htr
+
+theorem trace_nil (s : St R) : ∃ l, s.c.trace = s.c.trace ++ l ∧ ∀ e ∈ l, TagOK d e := ⟨[], by simp, by simp⟩
+
+end rel
+/-! ### the chain: handler invocation -/
+
+theorem all_ite {P : Ev → Prop} (b : Bool) (x : Ev) (h : P x) : ∀ e ∈ (if b then [x] else []), P e := by
+  cases b <;> simp [h]
+
+theorem all_append {α : Type} {P : α → Prop} {l1 l2 : List α} (h1 : ∀ e ∈ l1, P e) (h2 : ∀ e ∈ l2, P e) :
+    ∀ e ∈ l1 ++ l2, P e := by
+  intro e he
+  rcases List.mem_append.1 he with h | h
+  · exact h1 e h
+  · exact h2 e h
+
+theorem all_single {α : Type} {P : α → Prop} (x : α) (h : P x) : ∀ e ∈ [x], P e := by
+  simp [h]
+
+section chain
+variable {R : Type} (I : RegImpl R) (cfg : Config) (rec : Frame → St R → Action → St R)
+
+def RecOK : Prop := ∀ fr s a, Fr I (decide (1 ≤ fr.depth)) fr.depth s (rec fr s a)
+
+theorem runBody_Fr (hrec : RecOK I rec) (fr : Frame) (acts : List Action) (s : St R) :
+    Fr I (decide (1 ≤ fr.depth)) fr.depth s (runBody rec fr s acts) := by
+  induction acts generalizing s with
+  | nil => exact Fr.refl
+  | cons a as ih =>
+    simp only [runBody, List.foldl_cons]
+    split
+    · exact ih _
+    · exact (hrec fr s a).trans (ih _)
+
+theorem enterHandler_trace (r : Reg) (ty v root op d : Nat) (async : Bool) (s : St R) :
+    (enterHandler cfg r ty v root op d async s).1.c.trace = s.c.trace ++
+      ((if cfg.obs then [Ev.obs d .hs s.c.nextObs op ty async] else []) ++
+        [Ev.enter (d + 1) r.rid ty v (if r.ctxAware then some root else none) async]) := by
+  cases h : cfg.obs <;> simp [enterHandler, h]
+
+theorem enterHandler_fields (r : Reg) (ty v root op d : Nat) (async : Bool) (s : St R) :
+    let s1 := (enterHandler cfg r ty v root op d async s).1
+    s1.reg = s.reg ∧ s1.c.nextRid = s.c.nextRid ∧ s1.c.executed = s.c.executed ∧
+    s1.c.cancelled = s.c.cancelled ∧ s1.c.nextCtx = s.c.nextCtx ∧ s1.c.pending = s.c.pending ∧
+    s1.c.panicking = s.c.panicking := by
+  cases h : cfg.obs <;> simp [enterHandler, h]
+
+theorem enterHandler_Fr (r : Reg) (ty v root op d : Nat) (async : Bool) (s : St R) :
+    Fr I true d s (enterHandler cfg r ty v root op d async s).1 := by
+  obtain ⟨h1, h2, h3, h4, h5, h6, _⟩ := enterHandler_fields cfg r ty v root op d async s
+  refine Fr.quiet h1 h2 h3 h4 h5 h6 ⟨_, enterHandler_trace cfg r ty v root op d async s, ?_⟩
+  refine all_append (all_ite _ _ ?_) (all_single _ ?_) <;> simp [TagOK, Ev.depth, isEnter, isExit]
+
+/-- the events of the handler body -/
+theorem bodyResult_body (hrec : RecOK I rec) (r : Reg) (ty v root op d : Nat) (async : Bool) (s : St R) :
+    Fr I true (d + 1) (enterHandler cfg r ty v root op d async s).1
+      (bodyResult cfg rec r ty v root op d async s) := by
+  have := runBody_Fr I rec hrec
+    { depth := d + 1, root := root, obs := (enterHandler cfg r ty v root op d async s).2, ctxAware := r.ctxAware }
+    (cfg.bodies.getD r.body []) (enterHandler cfg r ty v root op d async s).1
+  simpa [bodyResult] using this
+
+theorem bodyResult_Fr (hrec : RecOK I rec) (r : Reg) (ty v root op d : Nat) (async : Bool) (s : St R) :
+    Fr I true d s (bodyResult cfg rec r ty v root op d async s) :=
+  (enterHandler_Fr I cfg r ty v root op d async s).trans
+    ((bodyResult_body I cfg rec hrec r ty v root op d async s).mono (Nat.le_succ d) id)
+
+/-- the events `callHandler` appends after the body -/
+def chTail (cfg : Config) (r : Reg) (ty v d hid : Nat) (pv : Option Nat) : List Ev :=
+  [Ev.exit (d + 1) r.rid] ++
+  (match pv with
+    | some val => if cfg.panicH then [Ev.panich d r.ctxAware ty v val] else []
+    | none => []) ++
+  (if cfg.obs then [Ev.obs d .hc hid 0 ty pv.isSome] else [])
+
+theorem callHandler_spec (r : Reg) (ty v root op d : Nat) (async : Bool) (s : St R) :
+    let sb := bodyResult cfg rec r ty v root op d async s
+    let s' := callHandler cfg rec r ty v root op d async s
+    s'.reg = sb.reg ∧ s'.c.nextRid = sb.c.nextRid ∧ s'.c.executed = sb.c.executed ∧
+    s'.c.cancelled = sb.c.cancelled ∧ s'.c.nextCtx = sb.c.nextCtx ∧ s'.c.pending = sb.c.pending ∧
+    s'.c.panicking = none ∧
+    s'.c.trace = sb.c.trace ++ chTail cfg r ty v d s.c.nextObs sb.c.panicking := by
+  intro sb s'
+  simp only [s', callHandler]
+  cases h : (bodyResult cfg rec r ty v root op d async s).c.panicking <;>
+    simp [sb, chTail, h]
+
+theorem chTail_tag (r : Reg) (ty v d hid : Nat) (pv : Option Nat) :
+    ∀ e ∈ chTail cfg r ty v d hid pv, TagOK d e := by
+  unfold chTail
+  refine all_append (all_append (all_single _ ?_) ?_) (all_ite _ _ ?_)
+  · simp [TagOK, Ev.depth, isEnter, isExit]
+  · cases pv
+    · simp
+    · exact all_ite _ _ (by simp [TagOK, Ev.depth, isEnter, isExit])
+  · simp [TagOK, Ev.depth, isEnter, isExit]
+
+theorem callHandler_Fr (hrec : RecOK I rec) (r : Reg) (ty v root op d : Nat) (async : Bool) (s : St R) :
+    Fr I true d s (callHandler cfg rec r ty v root op d async s) := by
+  obtain ⟨h1, h2, h3, h4, h5, h6, _, h8⟩ := callHandler_spec cfg rec r ty v root op d async s
+  exact (bodyResult_Fr I cfg rec hrec r ty v root op d async s).trans
+    (Fr.quiet h1 h2 h3 h4 h5 h6 ⟨_, h8, chTail_tag cfg r ty v d _ _⟩)
+
+/-- what an invocation parks was parked by the handler body, one level deeper -/
+theorem callHandler_pending (hrec : RecOK I rec) (r : Reg) (ty v root op d : Nat) (async : Bool) (s : St R) :
+    ∃ p, (callHandler cfg rec r ty v root op d async s).c.pending = s.c.pending ++ p ∧
+      ∀ q ∈ p, d + 1 ≤ q.depth := by
+  obtain ⟨_, _, _, _, _, h6, _, _⟩ := callHandler_spec cfg rec r ty v root op d async s
+  obtain ⟨_, _, _, _, _, g6, _⟩ := enterHandler_fields cfg r ty v root op d async s
+  obtain ⟨p, hp, hq⟩ := (bodyResult_body I cfg rec hrec r ty v root op d async s).pd rfl
+  exact ⟨p, by rw [h6, hp, g6], hq⟩
+
+end chain
+/-! ### one iteration of the dispatch loop -/
+
+section deliver
+variable {R : Type} (I : RegImpl R) (cfg : Config) (rec : Frame → St R → Action → St R)
+
+def filtEv (d v : Nat) (r : Reg) : List Ev :=
+  match r.filt with
+  | some _ => [Ev.filt d r.rid v (r.accepts v)]
+  | none => []
+
+def dFilt (d v : Nat) (r : Reg) (s : St R) : St R :=
+  match r.filt with
+  | some _ => { s with c := s.c.emit (.filt d r.rid v (r.accepts v)) }
+  | none => s
+
+def dClaim (r : Reg) (s : St R) : St R :=
+  if r.once then { s with c := { s.c with executed := r.rid :: s.c.executed } } else s
+
+def dClaimed (r : Reg) (claimed : List Reg) : List Reg := if r.once then claimed ++ [r] else claimed
+
+def dPark (p : Pending) (s : St R) : St R := { s with c := { s.c with pending := s.c.pending ++ [p] } }
+
+theorem dFilt_fields (d v : Nat) (r : Reg) (s : St R) :
+    (dFilt d v r s).reg = s.reg ∧ (dFilt d v r s).c.nextRid = s.c.nextRid ∧
+    (dFilt d v r s).c.executed = s.c.executed ∧ (dFilt d v r s).c.cancelled = s.c.cancelled ∧
+    (dFilt d v r s).c.nextCtx = s.c.nextCtx ∧ (dFilt d v r s).c.pending = s.c.pending ∧
+    (dFilt d v r s).c.panicking = s.c.panicking ∧
+    (dFilt d v r s).c.trace = s.c.trace ++ filtEv d v r := by
+  unfold dFilt filtEv
+  split <;> simp
+
+theorem filtEv_plain (d v : Nat) (r : Reg) : ∀ e ∈ filtEv d v r, e.depth = d ∧ plain e = true := by
+  unfold filtEv
+  split <;> simp [Ev.depth, plain]
+
+theorem dClaim_fields (r : Reg) (s : St R) :
+    (dClaim r s).reg = s.reg ∧ (dClaim r s).c.nextRid = s.c.nextRid ∧
+    (dClaim r s).c.executed = (if r.once then r.rid :: s.c.executed else s.c.executed) ∧
+    (dClaim r s).c.cancelled = s.c.cancelled ∧
+    (dClaim r s).c.nextCtx = s.c.nextCtx ∧ (dClaim r s).c.pending = s.c.pending ∧
+    (dClaim r s).c.panicking = s.c.panicking ∧
+    (dClaim r s).c.trace = s.c.trace := by
+  unfold dClaim
+  split <;> simp [*]
+
+theorem deliver_cases' (ty v root obs d : Nat) (s : St R) (claimed : List Reg) (r : Reg) :
+    let out := deliver cfg rec ty v root obs d (s, claimed) r
+    ((r.accepts v = false ∨ s.c.live root = false ∨ (r.once = true ∧ r.rid ∈ s.c.executed)) ∧
+      out = (dFilt d v r s, claimed)) ∨
+    (r.accepts v = true ∧ s.c.live root = true ∧ ¬ (r.once = true ∧ r.rid ∈ s.c.executed) ∧
+      ((r.async = true ∧ out = (dPark ⟨r, ty, v, root, obs, d⟩ (dClaim r (dFilt d v r s)), dClaimed r claimed)) ∨
+       (r.async = false ∧
+        out = (callHandler cfg rec r ty v root obs d false (dClaim r (dFilt d v r s)), dClaimed r claimed)))) := by
+  intro out
+  obtain ⟨_, _, hex, hcan, _, _, _, _⟩ := dFilt_fields d v r s
+  have hlive : (dFilt d v r s).c.live root = s.c.live root := by simp [Core.live, hcan]
+  obtain ⟨_, _, _, hcan2, _, _, _, _⟩ := dClaim_fields r (dFilt d v r s)
+  have hlive2 : (dClaim r (dFilt d v r s)).c.live root = s.c.live root := by simp [Core.live, hcan2, hcan]
+  have hout : out = deliver cfg rec ty v root obs d (s, claimed) r := rfl
+  simp only [deliver] at hout
+  change out = (if (!r.accepts v) = true then (dFilt d v r s, claimed)
+    else if (!(dFilt d v r s).c.live root) = true then (dFilt d v r s, claimed)
+    else if (r.once && (dFilt d v r s).c.executed.contains r.rid) = true then (dFilt d v r s, claimed)
+    else if r.async = true then (dPark ⟨r, ty, v, root, obs, d⟩ (dClaim r (dFilt d v r s)), dClaimed r claimed)
+    else if (!(dClaim r (dFilt d v r s)).c.live root) = true then (dClaim r (dFilt d v r s), dClaimed r claimed)
+    else (callHandler cfg rec r ty v root obs d false (dClaim r (dFilt d v r s)), dClaimed r claimed)) at hout
+  rw [hlive, hlive2, hex] at hout
+  cases ha : r.accepts v <;> cases hl : s.c.live root <;> simp [ha, hl] at hout ⊢
+  · exact hout
+  · exact hout
+  · exact hout
+  · by_cases hc : r.once = true ∧ r.rid ∈ s.c.executed
+    · left
+      simp [hc] at hout ⊢
+      exact hout
+    · right
+      refine ⟨fun h1 h2 => hc ⟨h1, h2⟩, ?_⟩
+      have hc' : ¬ (r.once = true ∧ r.rid ∈ s.c.executed) := hc
+      simp only [hc', if_false] at hout
+      cases hasy : r.async <;> simp [hasy] at hout ⊢ <;> exact hout
+
+theorem deliver_cases (ty v root obs d : Nat) (s : St R) (claimed : List Reg) (r : Reg) :
+    ((r.accepts v = false ∨ s.c.live root = false ∨ (r.once = true ∧ r.rid ∈ s.c.executed)) ∧
+      deliver cfg rec ty v root obs d (s, claimed) r = (dFilt d v r s, claimed)) ∨
+    (r.accepts v = true ∧ s.c.live root = true ∧ ¬ (r.once = true ∧ r.rid ∈ s.c.executed) ∧
+      ((r.async = true ∧ deliver cfg rec ty v root obs d (s, claimed) r =
+          (dPark ⟨r, ty, v, root, obs, d⟩ (dClaim r (dFilt d v r s)), dClaimed r claimed)) ∨
+       (r.async = false ∧ deliver cfg rec ty v root obs d (s, claimed) r =
+          (callHandler cfg rec r ty v root obs d false (dClaim r (dFilt d v r s)), dClaimed r claimed)))) :=
+  deliver_cases' cfg rec ty v root obs d s claimed r
+
+end deliver
+section loop
+variable {R : Type} (I : RegImpl R) (cfg : Config) (rec : Frame → St R → Action → St R)
+
+theorem dFilt_Fr (d v : Nat) (r : Reg) (s : St R) : Fr I true d s (dFilt d v r s) := by
+  obtain ⟨h1, h2, h3, h4, h5, h6, _, h8⟩ := dFilt_fields d v r s
+  exact Fr.quiet h1 h2 h3 h4 h5 h6 ⟨_, h8, fun e he =>
+    TagOK.of_plain (by rw [(filtEv_plain d v r e he).1]; exact Nat.le_refl _) (filtEv_plain d v r e he).2⟩
+
+theorem dClaim_Fr0 (d : Nat) (r : Reg) (s : St R) : Fr0 I true d s (dClaim r s) := by
+  obtain ⟨h1, h2, h3, h4, h5, h6, _, h8⟩ := dClaim_fields r s
+  exact Fr0.of_core h1 h2 (by rw [h3]; split <;> simp_all) (by simp [Inv0, h4, h5])
+    ⟨[], by simp [h6], by simp⟩ ⟨[], by simp [h8], by simp⟩
+
+theorem dPark_Fr (d : Nat) (p : Pending) (hp : d ≤ p.depth) (s : St R) : Fr I true d s (dPark p s) :=
+  Fr.of_sub (fun _ t => List.Sublist.refl _) rfl rfl (fun h => h) (fun _ => ⟨[p], rfl, by simp [hp]⟩)
+    ⟨[], by simp [dPark], by simp⟩
+
+theorem deliver_Fr0 (hrec : RecOK I rec) (ty v root obs d : Nat) (s : St R) (claimed : List Reg) (r : Reg) :
+    Fr0 I true d s (deliver cfg rec ty v root obs d (s, claimed) r).1 := by
+  rcases deliver_cases cfg rec ty v root obs d s claimed r with ⟨_, h⟩ | ⟨_, _, _, ⟨_, h⟩ | ⟨_, h⟩⟩ <;> rw [h]
+  · exact (dFilt_Fr I d v r s).toFr0
+  · exact (dFilt_Fr I d v r s).toFr0.trans ((dClaim_Fr0 I d r _).trans
+      (dPark_Fr I d _ (Nat.le_refl _) _).toFr0)
+  · exact (dFilt_Fr I d v r s).toFr0.trans ((dClaim_Fr0 I d r _).trans
+      (callHandler_Fr I cfg rec hrec r ty v root obs d false _).toFr0)
+
+theorem loop_Fr0 (hrec : RecOK I rec) (ty v root obs d : Nat) (l : List Reg) (s : St R) (claimed : List Reg) :
+    Fr0 I true d s (l.foldl (deliver cfg rec ty v root obs d) (s, claimed)).1 := by
+  induction l generalizing s claimed with
+  | nil => exact Fr0.refl
+  | cons r l ih =>
+    rw [List.foldl_cons]
+    have h1 := deliver_Fr0 I cfg rec hrec ty v root obs d s claimed r
+    generalize deliver cfg rec ty v root obs d (s, claimed) r = out at *
+    obtain ⟨s1, c1⟩ := out
+    exact h1.trans (ih s1 c1)
+
+theorem dClaim_Q (C : List Nat) (claimed : List Reg) (r : Reg) (s : St R) (hr : r.rid < s.c.nextRid)
+    (h : Q I s (C ++ claimed.map (·.rid))) : Q I (dClaim r s) (C ++ (dClaimed r claimed).map (·.rid)) := by
+  unfold dClaim dClaimed
+  cases ho : r.once
+  · simpa using h
+  · refine ⟨fun t r' hr' ho' he => ?_, fun x hx => ?_⟩
+    · simp at he ⊢
+      rcases he with he | he
+      · exact Or.inr (Or.inr he)
+      · have := h.1 t r' hr' ho' he
+        simp at this
+        rcases this with h | h
+        · exact Or.inl h
+        · exact Or.inr (Or.inl h)
+    · simp at hx ⊢
+      rcases hx with hx | hx
+      · omega
+      · exact h.2 x hx
+
+theorem deliver_Q (hI : I.Lawful) (hrec : RecOK I rec) (ty v root obs d : Nat) (C : List Nat) (s : St R)
+    (claimed : List Reg) (r : Reg) (hwf : WF I s) (hg : WFG I s) (hr : r.rid < s.c.nextRid)
+    (h : Q I s (C ++ claimed.map (·.rid))) :
+    Q I (deliver cfg rec ty v root obs d (s, claimed) r).1
+      (C ++ (deliver cfg rec ty v root obs d (s, claimed) r).2.map (·.rid)) ∧
+    ∀ c ∈ (deliver cfg rec ty v root obs d (s, claimed) r).2, c ∈ claimed ∨ c = r := by
+  have hF := dFilt_Fr I d v r s
+  have hmem : ∀ c ∈ dClaimed r claimed, c ∈ claimed ∨ c = r := by
+    unfold dClaimed; split
+    · simp
+    · exact fun c hc => Or.inl hc
+  have hC := dClaim_Fr0 I d r (dFilt d v r s)
+  have hwf1 := hF.wf hI hwf
+  have hg1 := hF.wfg hI hwf hg
+  have hq2 := dClaim_Q I C claimed r (dFilt d v r s) (by have := hF.nr; omega) (hF.q hI hwf hg _ h)
+  rcases deliver_cases cfg rec ty v root obs d s claimed r with ⟨_, h'⟩ | ⟨_, _, _, ⟨_, h'⟩ | ⟨_, h'⟩⟩ <;> rw [h']
+  · exact ⟨hF.q hI hwf hg _ h, fun c hc => Or.inl hc⟩
+  · exact ⟨(dPark_Fr I d _ (Nat.le_refl _) _).q hI (hC.wf hI hwf1) (hC.wfg hI hwf1 hg1) _ hq2, hmem⟩
+  · exact ⟨(callHandler_Fr I cfg rec hrec r ty v root obs d false _).q hI (hC.wf hI hwf1) (hC.wfg hI hwf1 hg1) _ hq2,
+      hmem⟩
+
+theorem loop_Q (hI : I.Lawful) (hrec : RecOK I rec) (ty v root obs d : Nat) (C : List Nat) (l : List Reg)
+    (s : St R) (claimed : List Reg) (hwf : WF I s) (hg : WFG I s) (hl : ∀ r ∈ l, r.rid < s.c.nextRid)
+    (h : Q I s (C ++ claimed.map (·.rid))) :
+    Q I (l.foldl (deliver cfg rec ty v root obs d) (s, claimed)).1
+      (C ++ (l.foldl (deliver cfg rec ty v root obs d) (s, claimed)).2.map (·.rid)) ∧
+    ∀ c ∈ (l.foldl (deliver cfg rec ty v root obs d) (s, claimed)).2, c ∈ claimed ∨ c ∈ l := by
+  induction l generalizing s claimed with
+  | nil => exact ⟨h, fun c hc => Or.inl hc⟩
+  | cons r l ih =>
+    rw [List.foldl_cons]
+    have h1 := deliver_Fr0 I cfg rec hrec ty v root obs d s claimed r
+    have h2 := deliver_Q I cfg rec hI hrec ty v root obs d C s claimed r hwf hg (hl r (by simp)) h
+    generalize deliver cfg rec ty v root obs d (s, claimed) r = out at *
+    obtain ⟨s1, c1⟩ := out
+    have := ih s1 c1 (h1.wf hI hwf) (h1.wfg hI hwf hg)
+      (fun r' hr' => by have := hl r' (by simp [hr']); have hn : s.c.nextRid ≤ s1.c.nextRid := h1.nr; omega) h2.1
+    refine ⟨this.1, fun c hc => ?_⟩
+    rcases this.2 c hc with h | h
+    · rcases h2.2 c h with h | h
+      · exact Or.inl h
+      · exact Or.inr (by simp [h])
+    · exact Or.inr (by simp [h])
+
+end loop
+/-! ### `eraseFirst`, `retire` -/
+
+theorem eraseFirst_sublist (p : Reg → Bool) (l : List Reg) : (eraseFirst p l).Sublist l := by
+  induction l with
+  | nil => exact List.Sublist.refl _
+  | cons r rs ih =>
+    simp only [eraseFirst]
+    split
+    · exact List.sublist_cons_self r rs
+    · exact ih.cons_cons r
+
+theorem retire_sublist (claimed hs : List Reg) : (retire claimed hs).Sublist hs := by
+  induction claimed generalizing hs with
+  | nil => exact List.Sublist.refl _
+  | cons c cs ih =>
+    simp only [retire, List.foldl_cons]
+    exact (ih _).trans (eraseFirst_sublist _ _)
+
+theorem eraseFirst_nodup (x : Nat) (l : List Reg) (hn : (l.map (·.rid)).Nodup) :
+    ∀ r ∈ eraseFirst (fun h => h.rid == x) l, r.rid ≠ x := by
+  induction l with
+  | nil => simp [eraseFirst]
+  | cons a as ih =>
+    simp only [List.map_cons, List.nodup_cons] at hn
+    simp only [eraseFirst]
+    split
+    · rename_i hax
+      have hax : a.rid = x := by simpa using hax
+      intro r hr heq
+      exact hn.1 (List.mem_map.2 ⟨r, hr, by rw [heq, hax]⟩)
+    · rename_i hax
+      intro r hr
+      rcases List.mem_cons.1 hr with h | h
+      · subst h; simpa using hax
+      · exact ih hn.2 r h
+
+theorem retire_not_mem (claimed hs : List Reg) (hn : (hs.map (·.rid)).Nodup) (c : Reg) (hc : c ∈ claimed) :
+    ∀ r ∈ retire claimed hs, r.rid ≠ c.rid := by
+  induction claimed generalizing hs with
+  | nil => simp at hc
+  | cons a as ih =>
+    simp only [retire, List.foldl_cons]
+    have hsub := eraseFirst_sublist (fun h => h.rid == a.rid) hs
+    have hn' := (hsub.map (·.rid)).nodup hn
+    rcases List.mem_cons.1 hc with h | h
+    · subst h
+      intro r hr
+      exact eraseFirst_nodup c.rid hs hn r ((retire_sublist as _).mem hr)
+    · exact ih _ hn' h
+
+/-! ### the parts of `publish` -/
+
+section pub
+variable {R : Type} (I : RegImpl R) (cfg : Config) (rec : Frame → St R → Action → St R)
+
+/-- the context handed to PublishContext: (root, obs0, state) -/
+def pubCtx (fr : Frame) (sel : CtxSel) (s : St R) : Nat × Nat × St R :=
+  match sel with
+  | .bg => (0, 0, s)
+  | .fresh => (s.c.nextCtx, 0, { s with c := { s.c with nextCtx := s.c.nextCtx + 1 } })
+  | .dead => (s.c.nextCtx, 0, { s with c := { s.c with nextCtx := s.c.nextCtx + 1, cancelled := s.c.nextCtx :: s.c.cancelled } })
+  | .inherit => if fr.ctxAware then (fr.root, fr.obs, s) else (0, 0, s)
+
+/-- OnPublishStart: (obs, state) -/
+def pubStart (d ty obs0 : Nat) (s : St R) : Nat × St R :=
+  (if cfg.obs then s.c.nextObs else obs0,
+   if cfg.obs then { s with c := { s.c.emit (.obs d .ps s.c.nextObs obs0 ty false) with nextObs := s.c.nextObs + 1 } } else s)
+
+/-- before hooks and persistence -/
+def pubBefore (d ty v : Nat) (bad : Bool) (obs : Nat) (s : St R) : St R :=
+  let s := { s with c := emitIf cfg.hookBL s.c (.hook d .bl ty v) }
+  let s := { s with c := emitIf cfg.hookBC s.c (.hook d .bc ty v) }
+  { s with c := persist cfg d ty v bad obs s.c }
+
+def pubRoot (fr : Frame) (sel : CtxSel) (s : St R) : Nat := (pubCtx fr sel s).1
+def pubObs (fr : Frame) (ty : Nat) (sel : CtxSel) (s : St R) : Nat :=
+  (pubStart cfg fr.depth ty (pubCtx fr sel s).2.1 (pubCtx fr sel s).2.2).1
+/-- the state at the snapshot -/
+def pubS0 (fr : Frame) (ty v : Nat) (bad : Bool) (sel : CtxSel) (s : St R) : St R :=
+  pubBefore cfg fr.depth ty v bad (pubObs cfg fr ty sel s)
+    (pubStart cfg fr.depth ty (pubCtx fr sel s).2.1 (pubCtx fr sel s).2.2).2
+
+/-- the part of `publish` after the dispatch loop -/
+def pubTail (d ty v pid : Nat) (p : St R × List Reg) : St R :=
+  let (s, claimed) := p
+  let s := if claimed.isEmpty then s else { s with reg := I.set s.reg ty (retire claimed (I.get s.reg ty)) }
+  let s := { s with c := emitIf cfg.hookAL s.c (.hook d .al ty v) }
+  let s := { s with c := emitIf cfg.hookAC s.c (.hook d .ac ty v) }
+  { s with c := emitIf cfg.obs s.c (.obs d .pc pid 0 ty false) }
+
+theorem publish_eq (fr : Frame) (ty v : Nat) (bad : Bool) (sel : CtxSel) (s : St R) :
+    publish I cfg rec fr ty v bad sel s =
+      pubTail I cfg fr.depth ty v (pubCtx fr sel s).2.2.c.nextObs
+        ((I.get (pubS0 cfg fr ty v bad sel s).reg ty).foldl
+          (deliver cfg rec ty v (pubRoot fr sel s) (pubObs cfg fr ty sel s) fr.depth)
+          (pubS0 cfg fr ty v bad sel s, [])) := by
+  rfl
+
+def hookL (b : Bool) (d : Nat) (k : HookKind) (ty v : Nat) : List Ev := if b then [Ev.hook d k ty v] else []
+
+theorem pubCtx_spec (fr : Frame) (sel : CtxSel) (s : St R) :
+    let s1 := (pubCtx fr sel s).2.2
+    s1.reg = s.reg ∧ s1.c.nextRid = s.c.nextRid ∧ s1.c.executed = s.c.executed ∧ s1.c.pending = s.c.pending ∧
+    s1.c.panicking = s.c.panicking ∧ s1.c.trace = s.c.trace ∧ (Inv0 s.c → Inv0 s1.c) ∧
+    (sel = .dead → s1.c.live (pubCtx fr sel s).1 = false) ∧
+    (sel = .bg → (pubCtx fr sel s).1 = 0) := by
+  cases sel
+  · simp [pubCtx]
+  · simp [pubCtx, Inv0]
+    intro h1 h2; omega
+  · simp [pubCtx, Inv0, Core.live]
+    intro h1 h2
+    exact ⟨by omega, h1⟩
+  · simp only [pubCtx]
+    split <;> simp
+
+theorem pubStart_spec (d ty obs0 : Nat) (s : St R) :
+    let s1 := (pubStart cfg d ty obs0 s).2
+    s1.reg = s.reg ∧ s1.c.nextRid = s.c.nextRid ∧ s1.c.executed = s.c.executed ∧ s1.c.pending = s.c.pending ∧
+    s1.c.panicking = s.c.panicking ∧ s1.c.cancelled = s.c.cancelled ∧ s1.c.nextCtx = s.c.nextCtx ∧
+    s1.c.trace = s.c.trace ++ (if cfg.obs then [Ev.obs d .ps s.c.nextObs obs0 ty false] else []) := by
+  cases h : cfg.obs <;> simp [pubStart, h]
+
+theorem pubBefore_spec (d ty v : Nat) (bad : Bool) (obs : Nat) (s : St R) :
+    let s1 := pubBefore cfg d ty v bad obs s
+    s1.reg = s.reg ∧ s1.c.nextRid = s.c.nextRid ∧ s1.c.executed = s.c.executed ∧ s1.c.pending = s.c.pending ∧
+    s1.c.panicking = s.c.panicking ∧ s1.c.cancelled = s.c.cancelled ∧ s1.c.nextCtx = s.c.nextCtx ∧
+    ∃ pe, s1.c.trace = s.c.trace ++ (hookL cfg.hookBL d .bl ty v ++ hookL cfg.hookBC d .bc ty v ++ pe) ∧
+      ∀ e ∈ pe, e.depth = d ∧ plain e = true := by
+  refine ⟨rfl, by simp [pubBefore], by simp [pubBefore], by simp [pubBefore], by simp [pubBefore],
+    by simp [pubBefore], by simp [pubBefore],
+    persistEvs cfg d ty v bad obs (emitIf cfg.hookBC (emitIf cfg.hookBL s.c (.hook d .bl ty v)) (.hook d .bc ty v)),
+    ?_, persistEvs_plain cfg d ty v bad obs _⟩
+  simp [pubBefore, persist_trace, hookL]
+
+end pub
+section pub2
+variable {R : Type} (I : RegImpl R) (cfg : Config) (rec : Frame → St R → Action → St R)
+
+theorem plain_all_tag {d : Nat} {l : List Ev} (h : ∀ e ∈ l, e.depth = d ∧ plain e = true) : ∀ e ∈ l, TagOK d e :=
+  fun e he => TagOK.of_plain (by rw [(h e he).1]; exact Nat.le_refl _) (h e he).2
+
+theorem hookL_tag (b : Bool) (d : Nat) (k : HookKind) (ty v : Nat) : ∀ e ∈ hookL b d k ty v, TagOK d e := by
+  unfold hookL
+  exact all_ite _ _ (by simp [TagOK, Ev.depth, isEnter, isExit])
+
+theorem pubS0_spec (fr : Frame) (ty v : Nat) (bad : Bool) (sel : CtxSel) (s : St R) :
+    let s0 := pubS0 cfg fr ty v bad sel s
+    s0.reg = s.reg ∧ s0.c.nextRid = s.c.nextRid ∧ s0.c.executed = s.c.executed ∧ s0.c.pending = s.c.pending ∧
+    s0.c.panicking = s.c.panicking ∧ (Inv0 s.c → Inv0 s0.c) ∧
+    (sel = .dead → s0.c.live (pubRoot fr sel s) = false) ∧
+    (sel = .bg → pubRoot fr sel s = 0) ∧
+    ∃ o1 pe, s0.c.trace = s.c.trace ++
+        (o1 ++ (hookL cfg.hookBL fr.depth .bl ty v ++ hookL cfg.hookBC fr.depth .bc ty v ++ pe)) ∧
+      (∀ e ∈ o1, e.depth = fr.depth ∧ plain e = true) ∧ (∀ e ∈ pe, e.depth = fr.depth ∧ plain e = true) := by
+  obtain ⟨a1, a2, a3, a4, a5, a6, a7, a8, a9⟩ := pubCtx_spec fr sel s
+  obtain ⟨b1, b2, b3, b4, b5, b6, b7, b8⟩ :=
+    pubStart_spec cfg fr.depth ty (pubCtx fr sel s).2.1 (pubCtx fr sel s).2.2
+  obtain ⟨c1, c2, c3, c4, c5, c6, c7, pe, c8, c9⟩ := pubBefore_spec cfg fr.depth ty v bad (pubObs cfg fr ty sel s)
+    (pubStart cfg fr.depth ty (pubCtx fr sel s).2.1 (pubCtx fr sel s).2.2).2
+  refine ⟨c1.trans (b1.trans a1), c2.trans (b2.trans a2), c3.trans (b3.trans a3), c4.trans (b4.trans a4),
+    c5.trans (b5.trans a5), ?_, ?_, a9,
+    (if cfg.obs then [Ev.obs fr.depth .ps (pubCtx fr sel s).2.2.c.nextObs (pubCtx fr sel s).2.1 ty false] else []),
+    pe, ?_, ?_, c9⟩
+  · intro h
+    have := a7 h
+    simpa [Inv0, pubS0, c6, c7, b6, b7] using this
+  · intro h
+    have := a8 h
+    simpa [Core.live, pubS0, pubRoot, c6, b6] using this
+  · show (pubBefore _ _ _ _ _ _ _).c.trace = _
+    rw [c8, b8, a6, List.append_assoc]
+  · exact all_ite _ _ (by simp [Ev.depth, plain])
+
+theorem pubS0_Fr (fr : Frame) (ty v : Nat) (bad : Bool) (sel : CtxSel) (s : St R) :
+    Fr I true fr.depth s (pubS0 cfg fr ty v bad sel s) := by
+  obtain ⟨h1, h2, h3, h4, _, h6, _, _, o1, pe, h7, h8, h9⟩ := pubS0_spec cfg fr ty v bad sel s
+  exact Fr.quiet' h1 h2 h3 h6 h4 ⟨_, h7, all_append (plain_all_tag h8)
+    (all_append (all_append (hookL_tag _ _ _ _ _) (hookL_tag _ _ _ _ _)) (plain_all_tag h9))⟩
+
+def tailEvs (cfg : Config) (d ty v pid : Nat) : List Ev :=
+  hookL cfg.hookAL d .al ty v ++ hookL cfg.hookAC d .ac ty v ++
+    (if cfg.obs then [Ev.obs d .pc pid 0 ty false] else [])
+
+theorem pubTail_spec (d ty v pid : Nat) (s1 : St R) (claimed : List Reg) :
+    let s2 := pubTail I cfg d ty v pid (s1, claimed)
+    s2.c.nextRid = s1.c.nextRid ∧ s2.c.executed = s1.c.executed ∧ s2.c.cancelled = s1.c.cancelled ∧
+    s2.c.nextCtx = s1.c.nextCtx ∧ s2.c.pending = s1.c.pending ∧ s2.c.panicking = s1.c.panicking ∧
+    s2.c.trace = s1.c.trace ++ tailEvs cfg d ty v pid ∧
+    s2.reg = (if claimed.isEmpty then s1.reg else I.set s1.reg ty (retire claimed (I.get s1.reg ty))) := by
+  cases h : claimed.isEmpty <;> simp [pubTail, h, tailEvs, hookL]
+
+theorem tailEvs_tag (d ty v pid : Nat) : ∀ e ∈ tailEvs cfg d ty v pid, TagOK d e := by
+  unfold tailEvs
+  exact all_append (all_append (hookL_tag _ _ _ _ _) (hookL_tag _ _ _ _ _))
+    (all_ite _ _ (by simp [TagOK, Ev.depth, isEnter, isExit]))
+
+theorem pubTail_sub (hI : I.Lawful) (d ty v pid : Nat) (s1 : St R) (claimed : List Reg) (t : Nat) :
+    (I.get (pubTail I cfg d ty v pid (s1, claimed)).reg t).Sublist (I.get s1.reg t) := by
+  rw [(pubTail_spec I cfg d ty v pid s1 claimed).2.2.2.2.2.2.2]
+  split
+  · exact List.Sublist.refl _
+  · rw [hI.get_set]
+    split
+    · rename_i h; subst h; exact retire_sublist _ _
+    · exact List.Sublist.refl _
+
+theorem pubTail_Fr (d ty v pid : Nat) (s1 : St R) (claimed : List Reg) :
+    Fr I true d s1 (pubTail I cfg d ty v pid (s1, claimed)) := by
+  obtain ⟨h1, h2, h3, h4, h5, _, h7, _⟩ := pubTail_spec I cfg d ty v pid s1 claimed
+  exact Fr.of_sub (fun hI t => pubTail_sub I cfg hI d ty v pid s1 claimed t) h1 h2 (by simp [Inv0, h3, h4])
+    (fun _ => ⟨[], by simp [h5], by simp⟩) ⟨_, h7, tailEvs_tag cfg d ty v pid⟩
+
+theorem pubTail_Q (hI : I.Lawful) (d ty v pid : Nat) (C : List Nat) (s1 : St R) (claimed : List Reg)
+    (hwf : WF I s1) (hst : ∀ c ∈ claimed, ∀ t, ∀ r ∈ I.get s1.reg t, r.rid = c.rid → t = ty)
+    (h : Q I s1 (C ++ claimed.map (·.rid))) : Q I (pubTail I cfg d ty v pid (s1, claimed)) C := by
+  obtain ⟨h1, h2, _, _, _, _, _, h8⟩ := pubTail_spec I cfg d ty v pid s1 claimed
+  refine ⟨fun t r hr ho he => ?_, fun x hx => by rw [h1]; exact h.2 x (h2 ▸ hx)⟩
+  have hr1 := (pubTail_sub I cfg hI d ty v pid s1 claimed t).mem hr
+  have := h.1 t r hr1 ho (h2 ▸ he)
+  rcases List.mem_append.1 this with hc | hc
+  · exact hc
+  · exfalso
+    obtain ⟨c, hc, hcr⟩ := List.mem_map.1 hc
+    have ht := hst c hc t r hr1 hcr.symm
+    subst ht
+    have hne : claimed.isEmpty = false := by cases claimed <;> simp_all
+    rw [h8, hne] at hr
+    simp only [Bool.false_eq_true, if_false, hI.get_set, if_true] at hr
+    exact retire_not_mem claimed _ (hwf t).1 c hc r hr hcr.symm
+
+theorem publish_Fr (hrec : RecOK I rec) (fr : Frame) (ty v : Nat) (bad : Bool) (sel : CtxSel) (s : St R) :
+    Fr I true fr.depth s (publish I cfg rec fr ty v bad sel s) := by
+  rw [publish_eq]
+  have hS := pubS0_Fr I cfg fr ty v bad sel s
+  have hL := loop_Fr0 I cfg rec hrec ty v (pubRoot fr sel s) (pubObs cfg fr ty sel s) fr.depth
+    (I.get (pubS0 cfg fr ty v bad sel s).reg ty) (pubS0 cfg fr ty v bad sel s) []
+  refine ⟨hS.toFr0.trans (hL.trans ?_), fun hI hwf hg C hq => ?_⟩
+  · generalize List.foldl _ _ _ = out
+    obtain ⟨s1, claimed⟩ := out
+    exact (pubTail_Fr I cfg fr.depth ty v _ s1 claimed).toFr0
+  · have hwf0 := hS.wf hI hwf
+    have hg0 := hS.wfg hI hwf hg
+    have hQ := loop_Q I cfg rec hI hrec ty v (pubRoot fr sel s) (pubObs cfg fr ty sel s) fr.depth C
+      (I.get (pubS0 cfg fr ty v bad sel s).reg ty) (pubS0 cfg fr ty v bad sel s) [] hwf0 hg0
+      (fun r hr => ((hwf0 ty).2 r hr).1) (by simpa using hS.q hI hwf hg C hq)
+    have hwf1 := hL.wf hI hwf0
+    have hstab := hL.stab hI
+    generalize List.foldl _ _ _ = out at *
+    obtain ⟨s1, claimed⟩ := out
+    refine pubTail_Q I cfg hI fr.depth ty v _ C s1 claimed hwf1 (fun c hc t r hr heq => ?_) hQ.1
+    have hc0 : c ∈ I.get (pubS0 cfg fr ty v bad sel s).reg ty := by
+      rcases hQ.2 c hc with h | h
+      · simp at h
+      · exact h
+    have hlt := ((hwf0 ty).2 c hc0).1
+    rcases hstab t r hr with h | h
+    · exact hg0 t ty r h c hc0 heq
+    · omega
+
+end pub2
+/-! ### `step` and `exec` -/
+
+section stepsec
+variable {R : Type} (I : RegImpl R) (cfg : Config) (rec : Frame → St R → Action → St R)
+
+theorem subscribe_Fr (b : Bool) (d : Nat) (s : St R) (rn : Reg) (ty : Nat) (hrid : rn.rid = s.c.nextRid)
+    (hty : rn.ty = ty) :
+    Fr I b d s { reg := I.set s.reg ty (I.get s.reg ty ++ [rn]), c := { s.c with nextRid := s.c.nextRid + 1 } } := by
+  have hmem : I.Lawful → ∀ t, ∀ r ∈ I.get (I.set s.reg ty (I.get s.reg ty ++ [rn])) t,
+      r ∈ I.get s.reg t ∨ (r = rn ∧ t = ty) := by
+    intro hI t r hr
+    rw [hI.get_set] at hr
+    split at hr
+    · rename_i h
+      subst h
+      rcases List.mem_append.1 hr with h | h
+      · exact Or.inl h
+      · exact Or.inr ⟨by simpa using h, rfl⟩
+    · exact Or.inl hr
+  refine ⟨⟨⟨[], by simp, by simp⟩, fun _ => ⟨[], by simp, by simp⟩, fun x h => h, fun h => h, by simp, ?_, ?_, ?_⟩, ?_⟩
+  · intro hI t r hr
+    rcases hmem hI t r hr with h | ⟨h, _⟩
+    · exact Or.inl h
+    · exact Or.inr (by rw [h, hrid]; exact Nat.le_refl _)
+  · intro hI hwf t
+    refine ⟨?_, fun r hr => ?_⟩
+    · show (List.map (·.rid) (I.get (I.set s.reg ty (I.get s.reg ty ++ [rn])) t)).Nodup
+      rw [hI.get_set]
+      split
+      · rename_i h
+        subst h
+        rw [List.map_append, List.nodup_append]
+        refine ⟨(hwf t).1, by simp, fun a ha b hb => ?_⟩
+        obtain ⟨r, hr, rfl⟩ := List.mem_map.1 ha
+        have := ((hwf t).2 r hr).1
+        simp at hb
+        omega
+      · exact (hwf t).1
+    · rcases hmem hI t r hr with h | ⟨h, h'⟩
+      · have := (hwf t).2 r h
+        exact ⟨Nat.lt_succ_of_lt this.1, this.2⟩
+      · subst h; subst h'
+        exact ⟨by show r.rid < s.c.nextRid + 1; omega, hty⟩
+  · intro hI hwf hg t t' r hr r' hr' heq
+    rcases hmem hI t r hr with h | ⟨h, h2⟩ <;> rcases hmem hI t' r' hr' with h' | ⟨h', h2'⟩
+    · exact hg t t' r h r' h' heq
+    · have := ((hwf t).2 r h).1
+      subst h'
+      omega
+    · have := ((hwf t').2 r' h').1
+      subst h
+      omega
+    · rw [h2, h2']
+  · intro hI hwf hg C hq
+    refine ⟨fun t r hr ho he => ?_, fun x hx => Nat.lt_succ_of_lt (hq.2 x hx)⟩
+    rcases hmem hI t r hr with h | ⟨h, _⟩
+    · exact hq.1 t r h ho he
+    · have := hq.2 _ he
+      subst h
+      omega
+
+theorem emit_Fr (b : Bool) (d : Nat) (s : St R) (e : Ev) (he : TagOK d e) :
+    Fr I b d s { s with c := s.c.emit e } :=
+  Fr.quiet rfl rfl rfl rfl rfl rfl ⟨[e], by simp, by simp [he]⟩
+
+theorem runPending_Fr (hrec : RecOK I rec) (p : Pending) (s : St R) :
+    Fr I false 0 s (runPending cfg rec p s) := by
+  unfold runPending
+  split
+  · exact Fr.refl
+  · exact (callHandler_Fr I cfg rec hrec p.reg p.ty p.v p.root p.obs p.depth true s).mono (Nat.zero_le _) (by simp)
+
+theorem step_Fr (hrec : RecOK I rec) : RecOK I (step I cfg rec) := by
+  intro fr s a
+  cases a with
+  | subscribe ty hid once async seq filt body => exact subscribe_Fr I _ _ s _ ty rfl rfl
+  | unsubscribe ty hid =>
+    simp only [step]
+    split
+    · refine Fr.of_sub (fun hI t => ?_) rfl rfl (fun h => h) (fun _ => ⟨[], by simp, by simp⟩)
+        ⟨[Ev.qUnsub fr.depth ty hid true], by simp, by simp [TagOK, Ev.depth, isEnter, isExit]⟩
+      show (I.get (I.set s.reg ty _) t).Sublist _
+      rw [hI.get_set]
+      split
+      · rename_i h; subst h; exact eraseFirst_sublist _ _
+      · exact List.Sublist.refl _
+    · exact emit_Fr I _ _ s _ (by simp [TagOK, Ev.depth, isEnter, isExit])
+  | clear ty =>
+    refine Fr.of_sub (fun hI t => ?_) rfl rfl (fun h => h) (fun _ => ⟨[], by simp [step], by simp⟩)
+      ⟨[], by simp [step], by simp⟩
+    show (I.get (I.set s.reg ty _) t).Sublist _
+    rw [hI.get_set]
+    split
+    · exact List.nil_sublist _
+    · exact List.Sublist.refl _
+  | clearAll =>
+    refine Fr.of_sub (fun hI t => ?_) rfl rfl (fun h => h) (fun _ => ⟨[], by simp [step], by simp⟩)
+      ⟨[], by simp [step], by simp⟩
+    show (I.get (I.clearAll s.reg) t).Sublist _
+    rw [hI.get_clearAll]
+    exact List.nil_sublist _
+  | publish ty v bad sel =>
+    simp only [step]
+    split
+    · exact emit_Fr I _ _ s _ (by simp [TagOK, Ev.depth, isEnter, isExit])
+    · exact (publish_Fr I cfg rec hrec fr ty v bad sel s).mono (Nat.le_refl _) (fun _ => rfl)
+  | cancel =>
+    simp only [step]
+    split
+    · exact Fr.refl
+    · rename_i h
+      refine Fr.quiet' rfl rfl rfl ?_ rfl ⟨[], by simp, by simp⟩
+      simp only [Inv0, List.mem_cons, not_or]
+      exact fun h' => ⟨⟨fun h0 => h h0.symm, h'.1⟩, h'.2⟩
+  | cancelId k =>
+    simp only [step]
+    split
+    · exact Fr.refl
+    · rename_i h
+      refine Fr.quiet' rfl rfl rfl ?_ rfl ⟨[], by simp, by simp⟩
+      simp only [Inv0, List.mem_cons, not_or]
+      exact fun h' => ⟨⟨fun h0 => h (Or.inl h0.symm), h'.1⟩, h'.2⟩
+  | panic val =>
+    simp only [step]
+    split
+    · exact Fr.refl
+    · exact Fr.quiet rfl rfl rfl rfl rfl rfl ⟨[], by simp, by simp⟩
+  | has ty => exact emit_Fr I _ _ s _ (by simp [TagOK, Ev.depth, isEnter, isExit])
+  | count ty => exact emit_Fr I _ _ s _ (by simp [TagOK, Ev.depth, isEnter, isExit])
+  | readLog => exact emit_Fr I _ _ s _ (by simp [TagOK, Ev.depth, isEnter, isExit])
+  | drain =>
+    simp only [step]
+    split
+    · exact Fr.refl
+    · rename_i hd
+      have hd : fr.depth = 0 := by simpa using hd
+      split
+      · exact Fr.refl
+      · rename_i p ps hp
+        have hb : decide (1 ≤ fr.depth) = false := by simp [hd]
+        rw [hb, hd]
+        have h1 : Fr I false 0 s { s with c := { s.c with pending := ps } } :=
+          Fr.of_sub (fun _ t => List.Sublist.refl _) rfl rfl (fun h => h) (by simp) ⟨[], by simp, by simp⟩
+        have h3 := hrec fr (runPending cfg rec p { s with c := { s.c with pending := ps } }) .drain
+        rw [hb, hd] at h3
+        exact h1.trans ((runPending_Fr I cfg rec hrec p _).trans h3)
+
+theorem exec_Fr (n : Nat) : RecOK I (exec I cfg n) := by
+  induction n with
+  | zero =>
+    intro fr s a
+    exact Fr.quiet rfl rfl rfl rfl rfl rfl ⟨[], by simp [exec], by simp⟩
+  | succ n ih => exact step_Fr I cfg _ ih
+
+end stepsec
+/-! ### panics -/
+
+section panics
+variable {R : Type} (I : RegImpl R) (cfg : Config) (rec : Frame → St R → Action → St R)
+
+theorem deliver_nopanic (ty v root obs d : Nat) (s : St R) (claimed : List Reg) (r : Reg)
+    (h : s.c.panicking = none) : (deliver cfg rec ty v root obs d (s, claimed) r).1.c.panicking = none := by
+  have h1 := (dFilt_fields d v r s).2.2.2.2.2.2.1
+  have h2 := (dClaim_fields r (dFilt d v r s)).2.2.2.2.2.2.1
+  rcases deliver_cases cfg rec ty v root obs d s claimed r with ⟨_, h'⟩ | ⟨_, _, _, ⟨_, h'⟩ | ⟨_, h'⟩⟩ <;> rw [h']
+  · exact h1.trans h
+  · exact h2.trans (h1.trans h)
+  · exact (callHandler_spec cfg rec r ty v root obs d false _).2.2.2.2.2.2.1
+
+theorem loop_nopanic (ty v root obs d : Nat) (l : List Reg) (s : St R) (claimed : List Reg)
+    (h : s.c.panicking = none) :
+    (l.foldl (deliver cfg rec ty v root obs d) (s, claimed)).1.c.panicking = none := by
+  induction l generalizing s claimed with
+  | nil => exact h
+  | cons r l ih =>
+    rw [List.foldl_cons]
+    have h1 := deliver_nopanic cfg rec ty v root obs d s claimed r h
+    generalize deliver cfg rec ty v root obs d (s, claimed) r = out at *
+    obtain ⟨s1, c1⟩ := out
+    exact ih s1 c1 h1
+
+theorem publish_nopanic (fr : Frame) (ty v : Nat) (bad : Bool) (sel : CtxSel) (s : St R)
+    (h : s.c.panicking = none) : (publish I cfg rec fr ty v bad sel s).c.panicking = none := by
+  rw [publish_eq]
+  have h0 := (pubS0_spec cfg fr ty v bad sel s).2.2.2.2.1
+  have h1 := loop_nopanic cfg rec ty v (pubRoot fr sel s) (pubObs cfg fr ty sel s) fr.depth
+    (I.get (pubS0 cfg fr ty v bad sel s).reg ty) (pubS0 cfg fr ty v bad sel s) [] (h0.trans h)
+  generalize List.foldl _ _ _ = out at *
+  obtain ⟨s1, claimed⟩ := out
+  exact (pubTail_spec I cfg fr.depth ty v _ s1 claimed).2.2.2.2.2.1.trans h1
+
+def RecNP : Prop := ∀ (fr : Frame) (s : St R) (a : Action), fr.depth = 0 → s.c.panicking = none →
+  (rec fr s a).c.panicking = none
+
+theorem step_nopanic (hrec : RecNP rec) : RecNP (step I cfg rec) := by
+  intro fr s a hd h
+  cases a with
+  | subscribe ty hid once async seq filt body => exact h
+  | unsubscribe ty hid => simp only [step]; split <;> exact h
+  | clear ty => exact h
+  | clearAll => exact h
+  | publish ty v bad sel =>
+    simp only [step]
+    split
+    · exact h
+    · exact publish_nopanic I cfg rec fr ty v bad sel s h
+  | cancel => simp only [step]; split <;> exact h
+  | cancelId k => simp only [step]; split <;> exact h
+  | panic val => simp [step, hd, h]
+  | has ty => exact h
+  | count ty => exact h
+  | readLog => exact h
+  | drain =>
+    simp only [step]
+    split
+    · exact h
+    · split
+      · exact h
+      · refine hrec fr _ _ hd ?_
+        unfold runPending
+        split
+        · exact h
+        · exact (callHandler_spec cfg rec _ _ _ _ _ _ true _).2.2.2.2.2.2.1
+
+theorem exec_nopanic (n : Nat) : RecNP (exec I cfg n) := by
+  induction n with
+  | zero => intro fr s a _ h; exact h
+  | succ n ih => exact step_nopanic I cfg _ ih
+
+end panics
+/-! ### projections of traces -/
+
+theorem newTrace_eq {R : Type} {s s' : St R} {l : List Ev} (h : s'.c.trace = s.c.trace ++ l) : newTrace s s' = l := by
+  simp [newTrace, h]
+
+theorem newPending_eq {R : Type} {s s' : St R} {l : List Pending} (h : s'.c.pending = s.c.pending ++ l) :
+    newPending s s' = l := by
+  simp [newPending, h]
+
+theorem plain_noenter {e : Ev} (h : plain e = true) : isEnter e = false := by
+  cases e <;> simp_all [plain, isEnter]
+
+theorem plain_nohook {e : Ev} (d : Nat) (h : plain e = true) : isHookAt d e = false := by
+  cases e <;> simp_all [plain, isHookAt]
+
+theorem plain_nopanich {e : Ev} (d : Nat) (h : plain e = true) : isPanichAt d e = false := by
+  cases e <;> simp_all [plain, isPanichAt]
+
+theorem hook_depth {e : Ev} {d : Nat} (h : isHookAt d e = true) : e.depth = d := by
+  cases e <;> simp_all [isHookAt, Ev.depth]
+
+theorem panich_depth {e : Ev} {d : Nat} (h : isPanichAt d e = true) : e.depth = d := by
+  cases e <;> simp_all [isPanichAt, Ev.depth]
+
+theorem filter_hook_deeper {d : Nat} {l : List Ev} (h : ∀ e ∈ l, TagOK (d + 1) e) : l.filter (isHookAt d) = [] := by
+  rw [List.filter_eq_nil_iff]
+  intro e he hh
+  have := (h e he).1
+  have := hook_depth hh
+  omega
+
+theorem filter_panich_deeper {d : Nat} {l : List Ev} (h : ∀ e ∈ l, TagOK (d + 1) e) :
+    l.filter (isPanichAt d) = [] := by
+  rw [List.filter_eq_nil_iff]
+  intro e he hh
+  have := (h e he).1
+  have := panich_depth hh
+  omega
+
+theorem filter_hook_plain {d d' : Nat} {l : List Ev} (h : ∀ e ∈ l, e.depth = d' ∧ plain e = true) :
+    l.filter (isHookAt d) = [] := by
+  rw [List.filter_eq_nil_iff]
+  intro e he hh
+  have := plain_nohook d (h e he).2
+  simp_all
+
+theorem directEnters_append (d : Nat) (l1 l2 : List Ev) :
+    directEnters d (l1 ++ l2) = directEnters d l1 ++ directEnters d l2 := by
+  simp [directEnters, List.filterMap_append]
+
+theorem directEnters_noenter {d : Nat} {l : List Ev} (h : ∀ e ∈ l, isEnter e = false) : directEnters d l = [] := by
+  unfold directEnters
+  rw [List.filterMap_eq_nil_iff]
+  intro e he
+  have := h e he
+  cases e <;> simp_all [isEnter]
+
+theorem directEnters_deeper {d : Nat} {l : List Ev} (h : ∀ e ∈ l, TagOK (d + 1) e) : directEnters d l = [] := by
+  unfold directEnters
+  rw [List.filterMap_eq_nil_iff]
+  intro e he
+  have := (h e he).2
+  cases e <;> simp_all [isEnter, Ev.depth]
+  omega
+
+theorem all_noenter_plain {d : Nat} {l : List Ev} (h : ∀ e ∈ l, e.depth = d ∧ plain e = true) :
+    ∀ e ∈ l, isEnter e = false := fun e he => plain_noenter (h e he).2
+
+theorem hookL_noenter (b : Bool) (d : Nat) (k : HookKind) (ty v : Nat) : ∀ e ∈ hookL b d k ty v, isEnter e = false := by
+  unfold hookL
+  exact all_ite _ _ rfl
+
+theorem tailEvs_noenter (cfg : Config) (d ty v pid : Nat) : ∀ e ∈ tailEvs cfg d ty v pid, isEnter e = false := by
+  unfold tailEvs
+  exact all_append (all_append (hookL_noenter _ _ _ _ _) (hookL_noenter _ _ _ _ _)) (all_ite _ _ rfl)
+
+/-! ### inert deliveries -/
+
+section inert
+variable {R : Type} (I : RegImpl R) (cfg : Config) (rec : Frame → St R → Action → St R)
+
+theorem deliver_skip (ty v root obs d : Nat) (s : St R) (claimed : List Reg) (r : Reg)
+    (h : r.accepts v = false ∨ s.c.live root = false) :
+    deliver cfg rec ty v root obs d (s, claimed) r = (dFilt d v r s, claimed) := by
+  rcases deliver_cases cfg rec ty v root obs d s claimed r with ⟨_, h'⟩ | ⟨h1, h2, _⟩
+  · exact h'
+  · rcases h with h | h <;> simp_all
+
+theorem loop_dead (ty v root obs d : Nat) (rest : List Reg) (s : St R) (claimed : List Reg)
+    (hdead : s.c.live root = false) :
+    let out := rest.foldl (deliver cfg rec ty v root obs d) (s, claimed)
+    out.2 = claimed ∧ out.1.c.executed = s.c.executed ∧ out.1.reg = s.reg ∧ out.1.c.pending = s.c.pending ∧
+    out.1.c.cancelled = s.c.cancelled ∧ out.1.c.nextRid = s.c.nextRid ∧ out.1.c.panicking = s.c.panicking ∧
+    ∃ l, out.1.c.trace = s.c.trace ++ l ∧ ∀ e ∈ l, e.depth = d ∧ plain e = true := by
+  induction rest generalizing s with
+  | nil => exact ⟨rfl, rfl, rfl, rfl, rfl, rfl, rfl, [], by simp, by simp⟩
+  | cons r rest ih =>
+    simp only [List.foldl_cons]
+    rw [deliver_skip cfg rec ty v root obs d s claimed r (Or.inr hdead)]
+    obtain ⟨h1, h2, h3, h4, h5, h6, h7, h8⟩ := dFilt_fields d v r s
+    have hd' : (dFilt d v r s).c.live root = false := by simpa [Core.live, h4] using hdead
+    obtain ⟨g1, g2, g3, g4, g5, g6, g7, l, g8, g9⟩ := ih (dFilt d v r s) hd'
+    refine ⟨g1, g2.trans h3, g3.trans h1, g4.trans h6, g5.trans h4, g6.trans h2, g7.trans h7,
+      filtEv d v r ++ l, by rw [g8, h8, List.append_assoc], all_append (filtEv_plain d v r) g9⟩
+
+end inert
+/-! ### the events of one invocation -/
+
+section invoc
+variable {R : Type} (I : RegImpl R) (cfg : Config) (rec : Frame → St R → Action → St R)
+
+def enterEvs (cfg : Config) (r : Reg) (ty v root op d : Nat) (async : Bool) (hid : Nat) : List Ev :=
+  (if cfg.obs then [Ev.obs d .hs hid op ty async] else []) ++
+    [Ev.enter (d + 1) r.rid ty v (if r.ctxAware then some root else none) async]
+
+theorem callHandler_trace (hrec : RecOK I rec) (r : Reg) (ty v root op d : Nat) (async : Bool) (s : St R) :
+    ∃ body, (callHandler cfg rec r ty v root op d async s).c.trace = s.c.trace ++
+        (enterEvs cfg r ty v root op d async s.c.nextObs ++ body ++
+          chTail cfg r ty v d s.c.nextObs (bodyResult cfg rec r ty v root op d async s).c.panicking) ∧
+      ∀ e ∈ body, TagOK (d + 1) e := by
+  obtain ⟨body, hb, ht⟩ := (bodyResult_body I cfg rec hrec r ty v root op d async s).tr
+  refine ⟨body, ?_, ht⟩
+  rw [(callHandler_spec cfg rec r ty v root op d async s).2.2.2.2.2.2.2, hb,
+    enterHandler_trace cfg r ty v root op d async s]
+  simp only [enterEvs, List.append_assoc]
+
+theorem enterEvs_direct (r : Reg) (ty v root op d : Nat) (async : Bool) (hid : Nat) :
+    directEnters d (enterEvs cfg r ty v root op d async hid) =
+      [(r.rid, ty, v, if r.ctxAware then some root else none)] := by
+  cases h : cfg.obs <;> simp [enterEvs, directEnters, h]
+
+theorem enterEvs_hook (r : Reg) (ty v root op d : Nat) (async : Bool) (hid : Nat) :
+    (enterEvs cfg r ty v root op d async hid).filter (isHookAt d) = [] := by
+  cases h : cfg.obs <;> simp [enterEvs, isHookAt, h]
+
+theorem enterEvs_panich (r : Reg) (ty v root op d : Nat) (async : Bool) (hid : Nat) :
+    (enterEvs cfg r ty v root op d async hid).filter (isPanichAt d) = [] := by
+  cases h : cfg.obs <;> simp [enterEvs, isPanichAt, h]
+
+theorem chTail_noenter (r : Reg) (ty v d hid : Nat) (pv : Option Nat) :
+    ∀ e ∈ chTail cfg r ty v d hid pv, isEnter e = false := by
+  unfold chTail
+  refine all_append (all_append (all_single _ rfl) ?_) (all_ite _ _ rfl)
+  cases pv
+  · simp
+  · exact all_ite _ _ rfl
+
+theorem chTail_hook (r : Reg) (ty v d hid : Nat) (pv : Option Nat) :
+    (chTail cfg r ty v d hid pv).filter (isHookAt d) = [] := by
+  rw [List.filter_eq_nil_iff]
+  unfold chTail
+  refine all_append (all_append (all_single _ (by simp [isHookAt])) ?_) (all_ite _ _ (by simp [isHookAt]))
+  cases pv
+  · simp
+  · exact all_ite _ _ (by simp [isHookAt])
+
+theorem chTail_panich (r : Reg) (ty v d hid : Nat) (pv : Option Nat) :
+    (chTail cfg r ty v d hid pv).filter (isPanichAt d) =
+      (match pv with
+       | some val => if cfg.panicH then [Ev.panich d r.ctxAware ty v val] else []
+       | none => []) := by
+  cases pv <;> cases h1 : cfg.panicH <;> cases h2 : cfg.obs <;> simp [chTail, isPanichAt, h1, h2]
+
+end invoc
+
+end BF
+
+open BF in
 /-- the trace only grows, and what a call at frame depth `d` appends is tagged `≥ d` -/
 theorem trace_extends {R : Type} (I : RegImpl R) (cfg : Config) (n : Nat) (fr : Frame) (s : St R) (a : Action) :
     ∃ l, (exec I cfg n fr s a).c.trace = s.c.trace ++ l ∧ ∀ e ∈ l, fr.depth ≤ e.depth := by
-  sorry
+  obtain ⟨l, e, t⟩ := (exec_Fr I cfg n fr s a).tr
+  exact ⟨l, e, fun x hx => (t x hx).1⟩
 
+open BF in
 /-- the registry stays well-formed -/
 theorem wf_exec {R : Type} (I : RegImpl R) (hI : I.Lawful) (cfg : Config) (n : Nat) (fr : Frame) (s : St R)
-    (a : Action) (h : WF I s) : WF I (exec I cfg n fr s a) := by
-  sorry
+    (a : Action) (h : WF I s) : WF I (exec I cfg n fr s a) :=
+  (exec_Fr I cfg n fr s a).wf hI h
+
+theorem BF.wf_init {R : Type} (I : RegImpl R) (hI : I.Lawful) (faults : List Bool) :
+    WF I (initSt I faults) ∧ BF.WFG I (initSt I faults) ∧ BF.Q I (initSt I faults) [] := by
+  simp [WF, BF.WFG, BF.Q, initSt, hI.get_empty]
+
+theorem BF.run_inv {R : Type} (I : RegImpl R) (hI : I.Lawful) (cfg : Config) (fuel : Nat)
+    (prog : List Action) (s : St R) (h : WF I s ∧ BF.WFG I s ∧ BF.Q I s []) :
+    let s' := prog.foldl (fun s a => exec I cfg fuel {} s a) s
+    WF I s' ∧ BF.WFG I s' ∧ BF.Q I s' [] := by
+  induction prog generalizing s with
+  | nil => exact h
+  | cons a as ih =>
+    have hF := BF.exec_Fr I cfg fuel {} s a
+    exact ih _ ⟨hF.wf hI h.1, hF.wfg hI h.1 h.2.1, hF.q hI h.1 h.2.1 _ h.2.2⟩
 
 theorem wf_run {R : Type} (I : RegImpl R) (hI : I.Lawful) (cfg : Config) (fuel : Nat) (faults : List Bool)
-    (prog : List Action) : WF I (run I cfg fuel faults prog) := by
-  sorry
+    (prog : List Action) : WF I (run I cfg fuel faults prog) :=
+  (BF.run_inv I hI cfg fuel prog _ (BF.wf_init I hI faults)).1
 
 /-- a panic never escapes to the top level -/
 theorem no_panic_escapes {R : Type} (I : RegImpl R) (cfg : Config) (fuel : Nat) (faults : List Bool)
     (prog : List Action) : (run I cfg fuel faults prog).c.panicking = none := by
-  sorry
+  have : ∀ (s : St R), s.c.panicking = none →
+      (prog.foldl (fun s a => exec I cfg fuel {} s a) s).c.panicking = none := by
+    induction prog with
+    | nil => exact fun s h => h
+    | cons a as ih => exact fun s h => ih _ (BF.exec_nopanic I cfg fuel {} s a rfl h)
+  exact this _ rfl
+
+open BF in
+/-- C04: a registration whose filter rejects the event is not used up by that delivery step -/
+theorem deliver_rejected_inert {R : Type} (cfg : Config) (rec : Frame → St R → Action → St R)
+    (ty v root obs d : Nat) (s : St R) (claimed : List Reg) (r : Reg) (hrej : r.accepts v = false) :
+    let out := deliver cfg rec ty v root obs d (s, claimed) r
+    out.2 = claimed ∧ out.1.c.executed = s.c.executed ∧ out.1.reg = s.reg ∧ out.1.c.pending = s.c.pending ∧
+    (∀ e ∈ newTrace s out.1, isEnter e = false) := by
+  intro out
+  have ho : out = (dFilt d v r s, claimed) := deliver_skip cfg rec ty v root obs d s claimed r (Or.inl hrej)
+  obtain ⟨h1, _, h3, _, _, h6, _, h8⟩ := dFilt_fields d v r s
+  rw [ho]
+  refine ⟨rfl, h3, h1, h6, ?_⟩
+  rw [newTrace_eq h8]
+  exact all_noenter_plain (filtEv_plain d v r)
+
+open BF in
+/-- C08: once the publish context is cancelled no further handler of that publish is started:
+the rest of the dispatch loop enters nothing, parks nothing, claims nothing -/
+theorem cancelled_loop_inert {R : Type} (cfg : Config) (rec : Frame → St R → Action → St R)
+    (ty v root obs d : Nat) (s : St R) (claimed : List Reg) (rest : List Reg) (hdead : s.c.live root = false) :
+    let out := rest.foldl (deliver cfg rec ty v root obs d) (s, claimed)
+    out.2 = claimed ∧ out.1.c.executed = s.c.executed ∧ out.1.reg = s.reg ∧ out.1.c.pending = s.c.pending ∧
+    (∀ e ∈ newTrace s out.1, isEnter e = false) := by
+  intro out
+  obtain ⟨h1, h2, h3, h4, _, _, _, l, h8, h9⟩ := loop_dead cfg rec ty v root obs d rest s claimed hdead
+  refine ⟨h1, h2, h3, h4, ?_⟩
+  rw [newTrace_eq h8]
+  exact all_noenter_plain h9
+
+open BF in
+/-- C08/C04: a publish whose context is already cancelled runs no handler, parks none,
+consumes no once handler and leaves the registry alone -/
+theorem dead_publish_inert {R : Type} (I : RegImpl R) (hI : I.Lawful) (cfg : Config) (n : Nat) (fr : Frame)
+    (ty v : Nat) (bad : Bool) (s : St R) :
+    let s' := publish I cfg (exec I cfg n) fr ty v bad .dead s
+    (∀ e ∈ newTrace s s', isEnter e = false) ∧ s'.c.pending = s.c.pending ∧
+    s'.c.executed = s.c.executed ∧ (∀ t, I.get s'.reg t = I.get s.reg t) := by
+  intro s'
+  have _ := hI
+  have hs' : s' = publish I cfg (exec I cfg n) fr ty v bad .dead s := rfl
+  rw [publish_eq] at hs'
+  obtain ⟨a1, _, a3, a4, _, _, a7, _, o1, pe, a9, a10, a11⟩ := pubS0_spec cfg fr ty v bad .dead s
+  obtain ⟨b1, b2, b3, b4, _, _, _, l, b8, b9⟩ := loop_dead cfg (exec I cfg n) ty v (pubRoot fr .dead s)
+    (pubObs cfg fr ty .dead s) fr.depth (I.get (pubS0 cfg fr ty v bad .dead s).reg ty)
+    (pubS0 cfg fr ty v bad .dead s) [] (a7 rfl)
+  generalize List.foldl _ _ _ = out at *
+  obtain ⟨s1, claimed⟩ := out
+  simp only at b1 b2 b3 b4 b8
+  subst b1
+  obtain ⟨_, c2, _, _, c5, _, c7, c8⟩ := pubTail_spec I cfg fr.depth ty v (pubCtx fr .dead s).2.2.c.nextObs s1 []
+  rw [← hs'] at c2 c5 c7 c8
+  refine ⟨?_, by rw [c5, b4, a4], by rw [c2, b2, a3], fun t => by rw [c8]; simp [b3, a1]⟩
+  have ht : s'.c.trace = s.c.trace ++ ((o1 ++ (hookL cfg.hookBL fr.depth .bl ty v ++
+      hookL cfg.hookBC fr.depth .bc ty v ++ pe)) ++ l ++ tailEvs cfg fr.depth ty v (pubCtx fr .dead s).2.2.c.nextObs) := by
+    rw [c7, b8, a9]; simp only [List.append_assoc]
+  rw [newTrace_eq ht]
+  exact all_append (all_append (all_append (all_noenter_plain a10) (all_append (all_append
+    (hookL_noenter _ _ _ _ _) (hookL_noenter _ _ _ _ _)) (all_noenter_plain a11))) (all_noenter_plain b9))
+    (tailEvs_noenter _ _ _ _ _)
+
+open BF in
+/-- C05: the panic handler is called exactly once per panicking invocation — with the event,
+the handler's kind and the panic value — and never otherwise; the invocation always returns
+with the panic cleared -/
+theorem callHandler_panic {R : Type} (I : RegImpl R) (cfg : Config) (n : Nat) (r : Reg)
+    (ty v root obsParent d : Nat) (async : Bool) (s : St R) :
+    let s' := callHandler cfg (exec I cfg n) r ty v root obsParent d async s
+    s'.c.panicking = none ∧
+    (newTrace s s').filter (isPanichAt d) =
+      (match (bodyResult cfg (exec I cfg n) r ty v root obsParent d async s).c.panicking with
+       | some val => if cfg.panicH then [Ev.panich d r.ctxAware ty v val] else []
+       | none => []) := by
+  intro s'
+  refine ⟨(callHandler_spec cfg (exec I cfg n) r ty v root obsParent d async s).2.2.2.2.2.2.1, ?_⟩
+  obtain ⟨body, hb, ht⟩ := callHandler_trace I cfg (exec I cfg n) (exec_Fr I cfg n) r ty v root obsParent d async s
+  rw [newTrace_eq hb, List.filter_append, List.filter_append, enterEvs_panich, filter_panich_deeper ht,
+    chTail_panich]
+  rfl
+
+/-- C04/C05: at the end of every top-level run no fired once-handler is still registered -/
+theorem once_retired_after_run {R : Type} (I : RegImpl R) (hI : I.Lawful) (cfg : Config) (fuel : Nat)
+    (faults : List Bool) (prog : List Action) :
+    let s := run I cfg fuel faults prog
+    ∀ t, ∀ r ∈ I.get s.reg t, r.once = true → r.rid ∉ s.c.executed := by
+  intro s t r hr ho he
+  have := (BF.run_inv I hI cfg fuel prog _ (BF.wf_init I hI faults)).2.2.1 t r hr ho he
+  simp at this
 
 /-- DELIVERY, soundness: the handlers a publish enters directly are registrations of the
 snapshot taken when it began (so: of the published type, never one subscribed during the
@@ -59,32 +1393,6 @@ theorem publish_at_most_once {R : Type} (I : RegImpl R) (hI : I.Lawful) (cfg : C
     ((directEnters fr.depth (newTrace s s')).map (·.1)).Nodup := by
   sorry
 
-/-- C08/C04: a publish whose context is already cancelled runs no handler, parks none,
-consumes no once handler and leaves the registry alone -/
-theorem dead_publish_inert {R : Type} (I : RegImpl R) (hI : I.Lawful) (cfg : Config) (n : Nat) (fr : Frame)
-    (ty v : Nat) (bad : Bool) (s : St R) :
-    let s' := publish I cfg (exec I cfg n) fr ty v bad .dead s
-    (∀ e ∈ newTrace s s', isEnter e = false) ∧ s'.c.pending = s.c.pending ∧
-    s'.c.executed = s.c.executed ∧ (∀ t, I.get s'.reg t = I.get s.reg t) := by
-  sorry
-
-/-- C04: a registration whose filter rejects the event is not used up by that delivery step -/
-theorem deliver_rejected_inert {R : Type} (cfg : Config) (rec : Frame → St R → Action → St R)
-    (ty v root obs d : Nat) (s : St R) (claimed : List Reg) (r : Reg) (hrej : r.accepts v = false) :
-    let out := deliver cfg rec ty v root obs d (s, claimed) r
-    out.2 = claimed ∧ out.1.c.executed = s.c.executed ∧ out.1.reg = s.reg ∧ out.1.c.pending = s.c.pending ∧
-    (∀ e ∈ newTrace s out.1, isEnter e = false) := by
-  sorry
-
-/-- C08: once the publish context is cancelled no further handler of that publish is started:
-the rest of the dispatch loop enters nothing, parks nothing, claims nothing -/
-theorem cancelled_loop_inert {R : Type} (cfg : Config) (rec : Frame → St R → Action → St R)
-    (ty v root obs d : Nat) (s : St R) (claimed : List Reg) (rest : List Reg) (hdead : s.c.live root = false) :
-    let out := rest.foldl (deliver cfg rec ty v root obs d) (s, claimed)
-    out.2 = claimed ∧ out.1.c.executed = s.c.executed ∧ out.1.reg = s.reg ∧ out.1.c.pending = s.c.pending ∧
-    (∀ e ∈ newTrace s out.1, isEnter e = false) := by
-  sorry
-
 /-- C08 hooks: the events a publish appends are `pre ++ mid ++ post` where `pre` holds the
 before-hooks (each configured one exactly once, legacy first) and ends before the first
 handler, `post` holds the after-hooks, and `mid` (the dispatch loop, where every handler of
@@ -100,26 +1408,6 @@ theorem publish_hooks {R : Type} (I : RegImpl R) (hI : I.Lawful) (cfg : Config) 
       mid.filter (isHookAt fr.depth) = [] ∧
       (∀ e ∈ pre, isEnter e = false) ∧ (∀ e ∈ post, isEnter e = false) ∧
       directEnters fr.depth (newTrace s s') = directEnters fr.depth mid := by
-  sorry
-
-/-- C05: the panic handler is called exactly once per panicking invocation — with the event,
-the handler's kind and the panic value — and never otherwise; the invocation always returns
-with the panic cleared -/
-theorem callHandler_panic {R : Type} (I : RegImpl R) (cfg : Config) (n : Nat) (r : Reg)
-    (ty v root obsParent d : Nat) (async : Bool) (s : St R) :
-    let s' := callHandler cfg (exec I cfg n) r ty v root obsParent d async s
-    s'.c.panicking = none ∧
-    (newTrace s s').filter (isPanichAt d) =
-      (match (bodyResult cfg (exec I cfg n) r ty v root obsParent d async s).c.panicking with
-       | some val => if cfg.panicH then [Ev.panich d r.ctxAware ty v val] else []
-       | none => []) := by
-  sorry
-
-/-- C04/C05: at the end of every top-level run no fired once-handler is still registered -/
-theorem once_retired_after_run {R : Type} (I : RegImpl R) (hI : I.Lawful) (cfg : Config) (fuel : Nat)
-    (faults : List Bool) (prog : List Action) :
-    let s := run I cfg fuel faults prog
-    ∀ t, ∀ r ∈ I.get s.reg t, r.once = true → r.rid ∉ s.c.executed := by
   sorry
 
 end Ebu.Bus
